@@ -1220,7 +1220,7 @@ def r26_memo_tables_distinct(ctx, rule):
 
 def r27_inner_counters(ctx, rule):
     from .common import inner_counters_reset
-    inner_counters_reset(ctx, rule, ['lib_guesser/omen/'], 1, 'every pass of the level fall-back walks the whole transition list of the '
+    inner_counters_reset(ctx, rule, ['lib_guesser/omen/'], 0, 'every pass of the level fall-back walks the whole transition list of the '
                          'lower level: a counter that keeps its value skips the transitions in front of it, the strings behind them are '
                          'emitted at no level (and the failure is cached), although trainer and scorer give them one')
 
